@@ -140,9 +140,10 @@ class Rewriter:
                     ("bin", "AND", ("bin", ">=", stp, zero), ("bin", "<=", v, lim)),
                     ("bin", "AND", ("bin", "<", stp, zero), ("bin", ">=", v, lim)))
             body = list(s["body"]) + [{"k": "assign", "lhs": v, "rhs": ("bin", "+", v, stp)}]
-            return [{"k": "assign", "lhs": v, "rhs": s["lo"]},
-                    {"k": "assign", "lhs": lim, "rhs": s["hi"]},
+            # limit and step first: they may refer to the counter's value from before the loop
+            return [{"k": "assign", "lhs": lim, "rhs": s["hi"]},
                     {"k": "assign", "lhs": stp, "rhs": step},
+                    {"k": "assign", "lhs": v, "rhs": s["lo"]},
                     {"k": "while", "cond": cond, "body": body}]
         if r == "while_to_do":
             return [{"k": "do", "pos": "top", "kind": "while", "cond": s["cond"], "body": s["body"]}]
